@@ -111,6 +111,10 @@ func Not(a bool) bool    { return !a }
 // are no stubs: nil.
 func StubLog() []string { return nil }
 
+// PoolReuse makes sync.Pool hand back the object most recently Put (a legal
+// behaviour of a pool) instead of always allocating; natively pools do as they please.
+func PoolReuse(on bool) {}
+
 func Ite(c bool, a, b int) int {
 	if c {
 		return a
